@@ -374,8 +374,7 @@ Definition entry_ok (of : string) (m : omode) (c : cfg) (t : tree) : Prop :=
   | MDiff => produced_by t = true /\ c = (root_of of, tcls t, tcls t, true)
   | MEdits => False
   | MDigest => (mem (tcls t) (classes it) = true /\ conforms t = true /\ c = (root_of of, tcls t, tcls t, true))
-               \/ (t = Tr (tcls t) [] /\ In (hd "" (c_f c), tcls t) (t_context T)
-                   /\ c = ([hd "" (c_f c)], tcls t, tcls t, false))
+               \/ (exists fc, tkids t = [] /\ In (fc, tcls t) (t_context T) /\ c = ([fc], tcls t, tcls t, false))
   end.
 
 End Run.
